@@ -185,7 +185,8 @@ pub fn thread_cpu_ticks() -> BTreeMap<u64, u64> {
     out
 }
 
-pub const ALL_POINTS: [&str; 31] = [
+pub const ALL_POINTS: [&str; 32] = [
+    "read.before_register",
     "read.registered",
     "write.slot_acquired",
     "commit.durable.before_horizon",
